@@ -1,4 +1,4 @@
-import Gv.Proofs.DistColsOps
+import Gv.Proofs.DistColsRows
 /-!
 # C08 (first half) — nucleotide distances depend only on the multiset of weighted columns
 
@@ -22,7 +22,7 @@ Exempt (by the property, and necessarily — `internal_gaps_not_permutation_inva
 
 Helper developments: `Proofs/DistCols*.lean`.
 -/
-namespace Gv.Props.C08
+namespace Gv.Props.C08Cols
 open Gv Gv.Model.Dist Gv.Proofs.DistCols
 
 /-! ## the counters are weighted counts; `probaNt` is a normalised weighted sum -/
@@ -200,4 +200,123 @@ theorem distMatrix_scale_weights (c : Cfg ℝ) (rows : List Seq) (k : ℝ) (hk :
   distMatrix_of_colEquiv c _ rows rows k hk hwf (wf_scaleWeights k rows c.weights hwf.rect) rfl hint
     (fun h => absurd h hraw) (colEquiv_scaleWeights k rows c.weights) _ _ _ _
 
-end Gv.Props.C08
+/-- **explicit unit weights = no weights**: every model and every counting mode (internal gaps included) -/
+theorem distMatrix_unit_weights (c : Cfg ℝ) (rows : List Seq) (hw : c.weights = none)
+    (hrect : ∀ r ∈ rows, r.length = alnLen rows) (r1min r1max r2min r2max : Int) :
+    distMatrix { c with weights := some (List.replicate (alnLen rows) (1 : ℝ)) } rows r1min r1max r2min r2max
+      = distMatrix c rows r1min r1max r2min r2max :=
+  distMatrix_unit c rows hw hrect r1min r1max r2min r2max
+
+/-- the assembly of `DistMatrix` is a function of `InitModel` and of the pair distances, for every
+interpretation of `float64` (no arithmetic is involved) -/
+theorem distMatrix_function_of_pair_distances {α : Type} [RealLike α] (c c' : Cfg α) (rows rows' : List Seq)
+    (r1min r1max r2min r2max : Int) (hv : c'.variant = c.variant) (hn : rows'.length = rows.length)
+    (h : match initModel c rows, initModel c' rows' with
+         | some ini, some ini' => ∀ i j, distance c' ini' (ini'.codes.getD i []) (ini'.codes.getD j [])
+             = distance c ini (ini.codes.getD i []) (ini.codes.getD j [])
+         | none, none => True
+         | _, _ => False) :
+    distMatrix c' rows' r1min r1max r2min r2max = distMatrix c rows r1min r1max r2min r2max :=
+  distMatrix_congr c c' rows rows' r1min r1max r2min r2max hv hn h
+
+/-! ## strand: complement and reverse complement -/
+
+/-- on the 16 IUPAC codes the complement keeps compatibility, transitions and transversions and
+exchanges A↔G with C↔T -/
+theorem complement_preserves_classes : ∀ a : Code, a ≤ 15 → ∀ b : Code, b ≤ 15 →
+    ntIUPACDifference (compCode a) (compCode b) = ntIUPACDifference a b ∧
+    isTransversion (compCode a) (compCode b) = isTransversion a b ∧
+    isTransition (compCode a) (compCode b) = isTransition a b ∧
+    isAG (compCode a) (compCode b) = isCT a b ∧ isCT (compCode a) (compCode b) = isAG a b ∧
+    (compCode a != compCode b) = (a != b) ∧ (isAG a b && isCT a b) = false :=
+  compCode_pair
+
+/-- the code of the complemented residue is the complement of the code (tables `complement_nuc_mapping`,
+`iupacToInt`, `nt2index` regenerated from align/const.go) -/
+theorem complement_residue_code : ∀ b : Byte, okByte b = true →
+    codeOf (compByte b) = compCode (codeOf b) ∧ okByte (compByte b) = true ∧
+    badForSelection (compByte b) = badForSelection b ∧ codeOf b ≤ 15 :=
+  compByte_facts
+
+/-- TN93, F84 and F81 as written in the source are symmetric under πA ↔ πT, πC ↔ πG, A↔G ↔ C↔T -/
+theorem estimators_strand_symmetric (g : Bool) (a πA πC πG πT p q p1 p2 t : ℝ) :
+    Gen.tn93Distance g a πT πG πC πA p q p2 p1 t = Gen.tn93Distance g a πA πC πG πT p q p1 p2 t ∧
+    Gen.f84Init πT πG πC πA = Gen.f84Init πA πC πG πT ∧ Gen.f81Init πT πG πC πA = Gen.f81Init πA πC πG πT :=
+  ⟨tn93_swap g a πA πC πG πT p q p1 p2 t, f84Init_swap πA πC πG πT, f81Init_swap πA πC πG πT⟩
+
+/-- **complementing every residue** (column order kept): same matrix, every model, every counting mode.
+`hok`: every residue has an IUPAC code — otherwise `DistMatrix` returns an error on `rows` -/
+theorem distMatrix_complement (c : Cfg ℝ) (rows : List Seq) (hwf : WF rows c.weights)
+    (hok : rows.all (fun r => r.all okByte) = true) (r1min r1max r2min r2max : Int) :
+    distMatrix c (complementRows rows) r1min r1max r2min r2max = distMatrix c rows r1min r1max r2min r2max :=
+  distMatrix_complementRows c rows hwf hok r1min r1max r2min r2max
+
+/-- **reverse complement of the whole alignment** (the weights are reversed with their columns): same
+matrix; counting modes 0 and 2 (for mode 1 see `PARTIAL` of the check module) -/
+theorem distMatrix_reverse_complement (c : Cfg ℝ) (rows : List Seq) (hwf : WF rows c.weights)
+    (hok : rows.all (fun r => r.all okByte) = true) (hint : usesInternalGaps c.model c.gapMode = false)
+    (r1min r1max r2min r2max : Int) :
+    distMatrix { c with weights := reverseWeights (alnLen rows) c.weights } (revcompRows rows) r1min r1max r2min r2max
+      = distMatrix c rows r1min r1max r2min r2max :=
+  distMatrix_revcompRows c rows hwf hok hint r1min r1max r2min r2max
+
+/-- `revcompRows` is what the model of `ReverseComplement` (property C06) returns for each row when it succeeds -/
+theorem revcompRows_is_ReverseComplement (s r : Seq) (h : Gv.Model.revcompSeq s = (r, false)) :
+    r = (s.map compByte).reverse :=
+  revcompSeq_ok s r h
+
+/-- non-vacuity: `ACR-` / `aygt` has IUPAC codes everywhere; its reverse complement is `-YGT` / `acrt` -/
+example : ([[65, 67, 82, 45], [97, 121, 103, 116]] : List Seq).all (fun r => r.all okByte) = true ∧
+    revcompRows [[65, 67, 82, 45], [97, 121, 103, 116]] = [[45, 89, 71, 84], [97, 99, 114, 116]] ∧
+    Gv.Model.revcompSeq [65, 67, 82, 45] = ([45, 89, 71, 84], false) := by
+  refine ⟨by decide, by decide, by decide⟩
+
+/-! ## rows -/
+
+/-- **permuting the rows permutes the matrix**: `m'[i][j] = m[q i][q j]` (half-matrix mode; every
+model and counting mode; over the reals `Distance` is symmetric in its two rows) -/
+theorem distMatrix_row_perm (c : Cfg ℝ) (rows : List Seq) (q : List Nat) (hq : q.Perm (List.range rows.length))
+    (hrect : ∀ r ∈ rows, r.length = alnLen rows) (m : List (List ℝ))
+    (h : distMatrix c rows (-1) (-1) (-1) (-1) = some m) :
+    ∃ m', distMatrix c (permuteRows q rows) (-1) (-1) (-1) (-1) = some m' ∧
+      ∀ i j, i < rows.length → j < rows.length →
+        (m'.getD i []).getD j 0 = (m.getD (q.getD i 0) []).getD (q.getD j 0) 0 :=
+  distMatrix_permuteRows c rows q hq hrect m h
+
+/-- the pair distance does not depend on the order of the two rows (all seven models, all counters) -/
+theorem distance_symmetric (c : Cfg ℝ) (ini : Init ℝ) (s1 s2 : List Code) :
+    distance c ini s2 s1 = distance c ini s1 s2 :=
+  distance_symm c ini s1 s2
+
+/-- non-vacuity: three rows in the order 2, 0, 1; the hypothesis `h` is satisfiable (`mat_raw_AgA` below
+is a computed matrix) -/
+example : [2, 0, 1].Perm (List.range ([[65], [67], [71]] : List Seq).length) ∧
+    permuteRows [2, 0, 1] [[65], [67], [71]] = [[71], [65], [67]] := by
+  constructor <;> decide
+
+/-! ## the internal-gap counter is exempt — necessarily -/
+
+/-- **column permutation changes the internal-gap distances**: `A-A` / `AAA` (rawdist, `countgapmut = 1`)
+is at distance 1; with the columns in the order 0, 2, 1 (`AA-` / `AAA`) the gap is terminal and the
+distance is 0.  The same for `pdist` (1/3 against 0). -/
+theorem internal_gaps_not_permutation_invariant :
+    usesInternalGaps (cfgIG .raw).model (cfgIG .raw).gapMode = true ∧
+    [0, 2, 1].Perm (List.range (alnLen [[65, 45, 65], [65, 65, 65]])) ∧ WF [[65, 45, 65], [65, 65, 65]] none ∧
+    permuteCols [0, 2, 1] [[65, 45, 65], [65, 65, 65]] = [[65, 65, 45], [65, 65, 65]] ∧
+    distMatrix (cfgIG .raw) [[65, 45, 65], [65, 65, 65]] (-1) (-1) (-1) (-1) = some [[0, 1], [1, 0]] ∧
+    distMatrix (cfgIG .raw) [[65, 65, 45], [65, 65, 65]] (-1) (-1) (-1) (-1) = some [[0, 0], [0, 0]] ∧
+    distMatrix (cfgIG .pdist) [[65, 45, 65], [65, 65, 65]] (-1) (-1) (-1) (-1) = some [[0, 1 / 3], [1 / 3, 0]] ∧
+    distMatrix (cfgIG .pdist) [[65, 65, 45], [65, 65, 65]] (-1) (-1) (-1) (-1) = some [[0, 0], [0, 0]] :=
+  ⟨by decide, by decide, ⟨by decide, fun v hv => by cases hv⟩, by decide,
+   mat_raw_AgA, mat_raw_AAg, mat_pdist_AgA, mat_pdist_AAg⟩
+
+/-- **replication changes the internal-gap distances non-linearly**: `A-` / `AA` is at raw distance 0
+(terminal gap), two copies `A-A-` / `AAAA` at distance 1, not `2 · 0` -/
+theorem internal_gaps_not_replication_invariant :
+    replicateCols 2 [[65, 45], [65, 65]] = [[65, 45, 65, 45], [65, 65, 65, 65]] ∧
+    distMatrix (cfgIG .raw) [[65, 45], [65, 65]] (-1) (-1) (-1) (-1) = some [[0, 0], [0, 0]] ∧
+    distMatrix (cfgIG .raw) (replicateCols 2 [[65, 45], [65, 65]]) (-1) (-1) (-1) (-1) = some [[0, 1], [1, 0]] := by
+  have h : replicateCols 2 [[65, 45], [65, 65]] = [[65, 45, 65, 45], [65, 65, 65, 65]] := by decide
+  exact ⟨h, mat_raw_Ag, by rw [h]; exact mat_raw_AgAg⟩
+
+end Gv.Props.C08Cols
